@@ -1,7 +1,8 @@
 """Shared rule helpers: provenance label sets and FLOW entry points."""
 from __future__ import annotations
 
-from typing import FrozenSet, Iterable, Set
+import ast
+from typing import FrozenSet, Iterable, List, Optional, Set
 
 from ..core import Ctx
 from ..flow import Obj
@@ -520,3 +521,27 @@ def payload_value_truthiness(ctx: Ctx, rule: str = "payload-truthiness", shorts=
         ctx.violated(rule, where, f"truth test ({context}) of {expr}", "`is not None` / a type test", "a row whose value is 0 or '' is dropped: every later count is paired with the wrong row")
     if not hits:
         ctx.held(rule, f"{', '.join(shorts)}: every truth test", f"{n} functions, no payload value is tested for truth", "", "positive control recognised")
+
+
+def positional_args(ctx: Ctx, call: ast.Call, callee) -> Optional[List[ast.expr]]:
+    """Arguments of `call` in the parameter order of `callee` (a Member), keywords bound by name; None when a keyword
+    does not name a parameter or a *args / **kwargs is present."""
+    params = [p for p in callee.params if p not in ("self", "cls")]
+    out = list(call.args)
+    if any(isinstance(a, ast.Starred) for a in out):
+        return None
+    if not call.keywords:
+        return out
+    slots: List[Optional[ast.expr]] = out + [None] * max(0, len(params) - len(out))
+    for k in call.keywords:
+        if k.arg is None or k.arg not in params:
+            return None
+        i = params.index(k.arg)
+        if i < len(out):
+            return None
+        slots[i] = k.value
+    while slots and slots[-1] is None:
+        slots.pop()
+    if any(x is None for x in slots):
+        return None
+    return slots  # type: ignore[return-value]
